@@ -70,12 +70,34 @@ inductive Reading where
   | match_ (optional : Bool) (pattern : List PatternPart) (wh : Option Expr)
   | unwind (e : Expr) (v : String)
 
+inductive SetRhs where
+  | expr (e : Expr)
+  | kinds (ks : List String)
+
+structure SetItem where
+  left : Expr
+  op : String               -- "=", "+=", "" (label assignment)
+  right : SetRhs
+
+inductive RemoveItem where
+  | kinds (ref : String) (ks : List String)     -- KindMatcher{Reference: variable, Kinds}
+  | prop (lookup : Expr)
+
+inductive Updating where
+  | create (pattern : List PatternPart)
+  | delete (detach : Bool) (es : List Expr)
+  | remove (items : List RemoveItem)
+  | set (items : List SetItem)
+  | merge (part : PatternPart) (actions : List (Bool × Bool × List SetItem))   -- (OnCreate, OnMatch, Set)
+
 structure SinglePart where
   reading : List Reading
+  updating : List Updating := []
   ret : Option Projection
 
 structure Part where
   reading : List Reading
+  updating : List Updating := []
   withProj : Projection
   withWhere : Option Expr
 
@@ -616,31 +638,101 @@ def bReading (f : Nat) (t : Tree) : R Reading :=
       | _, _ => un N k
     | _ => un N k
 
+/-- PropertyExpressionVisitor: the atom, then every oC_PropertyKeyName OVERWRITES the symbol (a chained `n.a.b` keeps `b`:
+known finding C07:oC_PropertyLookup:silently-dropped — mirrored here so that the Go model is reproduced) -/
+def bPropertyExpression (f : Nat) (t : Tree) : R Expr :=
+  match kidOfRule N t "oC_Atom" with
+  | none => un N t
+  | some a =>
+    match bAtom N f a with
+    | .error e => .error e
+    | .ok ae =>
+      let keys := (kidsOfRule N t "oC_PropertyLookup").filterMap (fun l => (kidOfRule N l "oC_PropertyKeyName").map (fun k => unescapeKey (getText f k)))
+      if keys.any String.isEmpty then .error (.rejected "property key name must not be empty")
+      else match keys.getLast? with
+        | some k => .ok (.prop ae k)
+        | none => un N t
+
+def labelsOf (f : Nat) (t : Tree) : List String :=
+  (kidsOfRule N t "oC_NodeLabel").map (fun l => match kidOfRule N l "oC_LabelName" with
+    | some n => getText f n
+    | none => "")
+
+/-- SetVisitor on one oC_Set -/
+def bSet (f : Nat) (t : Tree) : R (List SetItem) :=
+  mapM' (fun it =>
+    let op := if hasTok N it "T__1" then "=" else if hasTok N it "T__7" then "+=" else ""
+    let left : R Expr := match kidOfRule N it "oC_PropertyExpression", kidOfRule N it "oC_Variable" with
+      | some pe, _ => bPropertyExpression N f pe
+      | none, some v => .ok (.var (getText f v))
+      | none, none => un N it
+    let right : R SetRhs := match kidOfRule N it "oC_Expression", kidOfRule N it "oC_NodeLabels" with
+      | some e, _ => (bExpr N f e).map SetRhs.expr
+      | none, some ls => .ok (.kinds (labelsOf N f ls))
+      | none, none => un N it
+    match left, right with
+    | .ok l, .ok r => .ok { left := l, op := op, right := r }
+    | .error e, _ => .error e
+    | _, .error e => .error e) (kidsOfRule N t "oC_SetItem")
+
+/-- UpdatingClauseVisitor -/
+def bUpdating (f : Nat) (t : Tree) : R Updating :=
+  match onlyKid t with
+  | none => un N t
+  | some k =>
+    match ruleNameOf N k with
+    | "oC_Create" =>
+      match kidOfRule N k "oC_Pattern" with
+      | some p => (mapM' (bPatternPart N f) (kidsOfRule N p "oC_PatternPart")).map Updating.create
+      | none => un N k
+    | "oC_Delete" => (mapM' (bExpr N f) (kidsOfRule N k "oC_Expression")).map (Updating.delete (hasTok N k "DETACH"))
+    | "oC_Remove" =>
+      (mapM' (fun it => match kidOfRule N it "oC_PropertyExpression", kidOfRule N it "oC_Variable", kidOfRule N it "oC_NodeLabels" with
+        | some pe, _, _ => (bPropertyExpression N f pe).map RemoveItem.prop
+        | none, some v, some ls => .ok (.kinds (getText f v) (labelsOf N f ls))
+        | _, _, _ => un N it) (kidsOfRule N k "oC_RemoveItem")).map Updating.remove
+    | "oC_Set" => (bSet N f k).map Updating.set
+    | "oC_Merge" =>
+      match kidOfRule N k "oC_PatternPart" with
+      | none => un N k
+      | some pp =>
+        match bPatternPart N f pp, mapM' (fun a => match kidOfRule N a "oC_Set" with
+            | some st => (bSet N f st).map (fun items => (hasTok N a "ON" && hasTok N a "CREATE", hasTok N a "ON" && hasTok N a "MATCH", items))
+            | none => un N a) (kidsOfRule N k "oC_MergeAction") with
+        | .ok part, .ok acts => .ok (.merge part acts)
+        | .error e, _ => .error e
+        | _, .error e => .error e
+    | _ => un N k     -- oC_CreateUnique, oC_Foreach: rejected as unsupported
+
 def bSinglePart (f : Nat) (t : Tree) : R SinglePart :=
-  if (kidOfRule N t "oC_UpdatingClause").isSome then unr "oC_UpdatingClause" else
-  match mapM' (bReading N f) (kidsOfRule N t "oC_ReadingClause") with
-  | .error e => .error e
-  | .ok rs =>
+  match mapM' (bReading N f) (kidsOfRule N t "oC_ReadingClause"), mapM' (bUpdating N f) (kidsOfRule N t "oC_UpdatingClause") with
+  | .error e, _ => .error e
+  | _, .error e => .error e
+  | .ok rs, .ok us =>
     match kidOfRule N t "oC_Return" with
-    | none => .ok { reading := rs, ret := none }
+    | none => .ok { reading := rs, updating := us, ret := none }
     | some r => match kidOfRule N r "oC_ProjectionBody" with
-      | some pb => (bProjection N f pb).map (fun p => { reading := rs, ret := some p })
+      | some pb => (bProjection N f pb).map (fun p => { reading := rs, updating := us, ret := some p })
       | none => un N r
 
-/-- MultiPartQueryVisitor: reading clauses accumulate into the current part, a WITH closes it -/
-def bParts (f : Nat) : List Tree → List Reading → R (List Part)
-  | [], _ => .ok []
-  | k :: ks, acc =>
+/-- MultiPartQueryVisitor: reading and updating clauses accumulate into the part of the current index (allocated on demand:
+`len(Parts) == partIdx`), a WITH closes it and advances the index -/
+def bParts (f : Nat) : List Tree → List Reading → List Updating → R (List Part)
+  | [], _, _ => .ok []
+  | k :: ks, acc, uacc =>
     match ruleNameOf N k with
     | "oC_ReadingClause" => match bReading N f k with
-      | .ok r => bParts f ks (acc ++ [r])
+      | .ok r => bParts f ks (acc ++ [r]) uacc
+      | .error e => .error e
+    | "oC_UpdatingClause" => match bUpdating N f k with
+      | .ok u => bParts f ks acc (uacc ++ [u])
       | .error e => .error e
     | "oC_With" =>
       match kidOfRule N k "oC_ProjectionBody" with
       | none => un N k
       | some pb =>
-        match bProjection N f pb, bOptWhere N f k, bParts f ks [] with
-        | .ok p, .ok w, .ok rest => .ok ({ reading := acc, withProj := p, withWhere := w } :: rest)
+        match bProjection N f pb, bOptWhere N f k, bParts f ks [] [] with
+        | .ok p, .ok w, .ok rest => .ok ({ reading := acc, updating := uacc, withProj := p, withWhere := w } :: rest)
         | .error e, _, _ => .error e
         | _, .error e, _ => .error e
         | _, _, .error e => .error e
@@ -675,7 +767,7 @@ def build (t : Tree) : R Query :=
               match kidOfRule N body "oC_SinglePartQuery" with
               | none => un N body
               | some last =>
-                match bParts N f (ruleKids body) [], bSinglePart N f last with
+                match bParts N f (ruleKids body) [] [], bSinglePart N f last with
                 | .ok ps, .ok l => .ok (.multi ps l)
                 | .error e, _ => .error e
                 | _, .error e => .error e
@@ -778,12 +870,29 @@ def sxReading : Reading → String
   | .match_ o ps w => "(cypher.ReadingClause (Match (cypher.Match (Optional " ++ toString o ++ ") (Pattern " ++ sxList (ps.map sxPatternPart) ++ ") (Where " ++ sxWhere w ++ "))) (Unwind nil))"
   | .unwind e v => "(cypher.ReadingClause (Match nil) (Unwind (cypher.Unwind (Expression " ++ sxExpr bigFuel e ++ ") (Variable " ++ sxVar v ++ "))))"
 
+def sxKindsE (ks : List String) : String := sxKinds ks
+
+def sxSetItems (items : List SetItem) : String :=
+  "(cypher.Set (Items " ++ sxList (items.map (fun it => "(cypher.SetItem (Left " ++ sxExpr bigFuel it.left ++ ") (Operator (cypher.AssignmentOperator " ++
+    jsonQuote it.op ++ ")) (Right " ++ (match it.right with | .expr e => sxExpr bigFuel e | .kinds ks => sxKinds ks) ++ "))")) ++ "))"
+
+def sxUpdating (u : Updating) : String :=
+  "(cypher.UpdatingClause " ++ sxErrCtx ++ " (Clause " ++ (match u with
+    | .create ps => "(cypher.Create " ++ sxErrCtx ++ " (Unique false) (Pattern " ++ sxList (ps.map sxPatternPart) ++ "))"
+    | .delete d es => "(cypher.Delete (Detach " ++ toString d ++ ") (Expressions " ++ sxList (es.map (sxExpr bigFuel)) ++ "))"
+    | .remove items => "(cypher.Remove (Items " ++ sxList (items.map (fun it => match it with
+        | .kinds r ks => "(cypher.RemoveItem (KindMatcher (cypher.KindMatcher (Reference " ++ sxVar r ++ ") (Kinds " ++ sxKinds ks ++ ") (IsExclusive false))) (Property nil))"
+        | .prop l => "(cypher.RemoveItem (KindMatcher nil) (Property " ++ sxExpr bigFuel l ++ "))")) ++ "))"
+    | .set items => sxSetItems items
+    | .merge part acts => "(cypher.Merge (PatternPart " ++ sxPatternPart part ++ ") (MergeActions " ++
+        sxList (acts.map (fun a => "(cypher.MergeAction (OnCreate " ++ toString a.1 ++ ") (OnMatch " ++ toString a.2.1 ++ ") (Set " ++ sxSetItems a.2.2 ++ "))")) ++ "))") ++ "))"
+
 def sxSinglePart (q : SinglePart) : String :=
-  "(cypher.SinglePartQuery " ++ sxErrCtx ++ " (ReadingClauses " ++ sxList (q.reading.map sxReading) ++ ") (UpdatingClauses nil) (Return " ++
+  "(cypher.SinglePartQuery " ++ sxErrCtx ++ " (ReadingClauses " ++ sxList (q.reading.map sxReading) ++ ") (UpdatingClauses " ++ sxList (q.updating.map sxUpdating) ++ ") (Return " ++
   sxOpt (fun p => "(cypher.Return (Projection " ++ sxProjection p ++ "))") q.ret ++ "))"
 
 def sxPart (p : Part) : String :=
-  "(cypher.MultiPartQueryPart (ReadingClauses " ++ sxList (p.reading.map sxReading) ++ ") (UpdatingClauses nil) (With (cypher.With (Projection " ++
+  "(cypher.MultiPartQueryPart (ReadingClauses " ++ sxList (p.reading.map sxReading) ++ ") (UpdatingClauses " ++ sxList (p.updating.map sxUpdating) ++ ") (With (cypher.With (Projection " ++
   sxProjection p.withProj ++ ") (Where " ++ sxWhere p.withWhere ++ "))))"
 
 def toSexp : Query → String
@@ -921,11 +1030,27 @@ def eReading : Reading → List String
   | .match_ o ps w => (if o then ["optional"] else []) ++ ["match"] ++ commaSep (ps.map ePatternPart) ++ eWhere w
   | .unwind e v => ["unwind"] ++ eExpr bigFuel e ++ ["as", v]
 
+def eKinds (ks : List String) : List String := (ks.map (fun k => [":", k])).flatten
+
+def eSetItems (items : List SetItem) : List String :=
+  "set" :: commaSep (items.map (fun it => eExpr bigFuel it.left ++ (if it.op == "" then [] else [it.op]) ++
+    (match it.right with | .expr e => eExpr bigFuel e | .kinds ks => eKinds ks)))
+
+def eUpdating : Updating → List String
+  | .create ps => "create" :: commaSep (ps.map ePatternPart)
+  | .delete d es => (if d then ["detach", "delete"] else ["delete"]) ++ commaSep (es.map (eExpr bigFuel))
+  | .remove items => "remove" :: commaSep (items.map (fun it => match it with
+      | .kinds r ks => r :: eKinds ks
+      | .prop l => eExpr bigFuel l))
+  | .set items => eSetItems items
+  | .merge part acts => "merge" :: ePatternPart part ++
+      (acts.map (fun a => (if a.1 then ["on", "create"] else []) ++ (if a.2.1 then ["on", "match"] else []) ++ eSetItems a.2.2)).flatten
+
 def eSinglePart (q : SinglePart) : List String :=
-  (q.reading.map eReading).flatten ++ (match q.ret with | some p => "return" :: eProjection p | none => [])
+  (q.reading.map eReading).flatten ++ (q.updating.map eUpdating).flatten ++ (match q.ret with | some p => "return" :: eProjection p | none => [])
 
 def emit : Query → List String
   | .single q => eSinglePart q
-  | .multi ps l => (ps.map (fun p => (p.reading.map eReading).flatten ++ ["with"] ++ eProjection p.withProj ++ eWhere p.withWhere)).flatten ++ eSinglePart l
+  | .multi ps l => (ps.map (fun p => (p.reading.map eReading).flatten ++ (p.updating.map eUpdating).flatten ++ ["with"] ++ eProjection p.withProj ++ eWhere p.withWhere)).flatten ++ eSinglePart l
 
 end Dawgs.C07
